@@ -27,6 +27,7 @@ from .ref.apidefaults import DOC, FORMS, REQUIRED
 
 
 class S:
+    last_raise = None       # (exception, builder name, bound arguments)
     candidates = 0
     rewritten = 0
     per_fn: dict = {}
@@ -176,13 +177,56 @@ def _decide(name, bound) -> bool:
     return bool(h[0] & 1)
 
 
+def _as_written(name, fn, names, a, kw):
+    try:
+        return fn(*a, **kw)
+    except BaseException as e:
+        # remembered so that the worker can tell "a builder raised and the
+        # check did not expect it" from a failure of the harness itself
+        S.last_raise = (e, name, {**dict(zip(names, a)), **kw})
+        raise
+
+
+def escaped_builder_error(exc, ctx) -> bool:
+    """called by the worker when an exception ended a shard: if it is the one
+    a builder raised for the call as the check wrote it, and no check caught
+    it, that is the builder not producing a result for arguments the check
+    takes from the documented domain -> a violation, not a harness error"""
+    lr = S.last_raise
+    if lr is None:
+        return False
+    e, seen = exc, 0
+    while e is not None and seen < 8:
+        if e is lr[0]:
+            break
+        e = e.__cause__ or e.__context__
+        seen += 1
+    else:
+        return False
+    if e is None:
+        return False
+    _, name, bound = lr
+    try:
+        args = {k: _enc(v) for k, v in bound.items()}
+    except Unencodable:
+        args = None
+    ctx.evaluated()
+    ctx.violation(f'builder-raised:{name}', f'{name} raises for arguments '
+                  'the check takes from the documented domain (it returned a '
+                  'result for them on the tree the check was calibrated on)',
+                  {'builder_default': {'fn': name, 'args': args,
+                                       'rewritten': [], 'expect': 'result'}},
+                  'a result', f'{type(lr[0]).__name__}: {lr[0]}'[:200])
+    return True
+
+
 def _call(name, fn, tools, *a, **kw):
     if S.busy:
         return fn(*a, **kw)
     spec, forms = DOC.get(name), FORMS.get(name)
     names = [p for p, _ in (spec or forms)]
     if len(a) > len(names) or any(k not in names for k in kw):
-        return fn(*a, **kw)
+        return _as_written(name, fn, names, a, kw)
     bound = {**dict(zip(names, a)), **kw}
     # (1) documented default values that could be left out
     cand = [p for p, d in (spec or []) if d is not REQUIRED and p in bound
@@ -196,10 +240,10 @@ def _call(name, fn, tools, *a, **kw):
                 alt[p] = c
                 changed.append(p)
     if not cand and not changed:
-        return fn(*a, **kw)
+        return _as_written(name, fn, names, a, kw)
     S.candidates += 1
     if not _decide(name, bound):
-        return fn(*a, **kw)
+        return _as_written(name, fn, names, a, kw)
     # positional arguments stay positional up to the first omitted one; the
     # ones after it are passed by their documented names
     first = min([names.index(p) for p in cand] + [len(names)])
@@ -215,8 +259,9 @@ def _call(name, fn, tools, *a, **kw):
         except BaseException as e:
             try:
                 out = fn(*a, **kw)
-            except BaseException:
-                raise e from None           # the call as written raises too
+            except BaseException as e2:
+                S.last_raise = (e2, name, dict(bound))
+                raise e2 from None          # the call as written raises too
             _record('raises', name, cand + changed, bound, 'a result',
                     f'{type(e).__name__}: {str(e)[:160]}')
             return out
@@ -277,5 +322,10 @@ def replay(case, ctx) -> None:
     args = {k: _dec(v, real) for k, v in c['args'].items()}
     fn = getattr(ToolsProxy(real), c['fn'])
     env.Clock.now = env.NOW0
-    fn(**args)
+    try:
+        fn(**args)
+    except BaseException as e:
+        if c.get('expect') == 'result':
+            ctx.violation(f'builder-raised:{c["fn"]}', 'replay', case,
+                          'a result', f'{type(e).__name__}: {e}'[:200])
     drain(ctx)
